@@ -215,6 +215,30 @@ def main(tier, seed):
             pass
     gc.collect()
     alive = sum(1 for r in refs if r() is not None)
+    # ... and right after a single parse, with no later parse in between (a cache of "the last parse" would be
+    # flushed by the next one and stay unnoticed above)
+    for t, p in [d for d, r in zip(docs, base) if 'ok' in r][:8]:
+        one = []
+        try:
+            db = PyDBML(t, allow_properties=p)
+            one.append(weakref.ref(db))
+            one += [weakref.ref(x) for x in db.tables[:2]] + [weakref.ref(x) for x in db.refs[:1]] + [weakref.ref(x) for x in db.enums[:1]]
+            del db
+        except Exception:  # noqa: BLE001
+            pass
+        gc.collect()
+        alive += sum(1 for r in one if r() is not None)
+        refs += one
+    for t, p in [d for d, r in zip(docs, base) if str(r.get('err', '')).startswith('lib:')][:4]:
+        # a parse that failed while building: nothing of it may stay reachable
+        n0 = live_pydbml_objects()
+        try:
+            PyDBML(t, allow_properties=p)
+        except Exception:  # noqa: BLE001
+            pass
+        n1 = live_pydbml_objects()
+        if n1 > n0 + 2:
+            ctx.fail(f'objects of a parse that failed while building stay reachable ({n0} -> {n1} live pydbml objects)', {'op': 'retained-after-failure', 'text': t})
     ctx.case(core.h(['reclaim', len(refs)]), True, sample={'weakrefs': len(refs), 'alive_after_drop': alive})
     if alive:
         ctx.fail(f'{alive} of {len(refs)} dropped results are still referenced by the library', {'op': 'reclaim'})
